@@ -96,6 +96,7 @@ ReplayRecord ==
   [id     |-> <<di, qi>>,
    mode   |-> Mode,
    q      |-> RenderQuery(query),
+   ast    |-> query,
    doc    |-> doc,
    expect |-> inp,
    sm     |-> IF MultiMulti THEN <<DenoteSM(query, doc)>> ELSE <<>>,
